@@ -245,6 +245,29 @@ def refGetattr (r : Option (List (String × α))) (p : String) : Except Err α :
 def refSetattr (r : Option (List (String × α))) (p : String) (v : α) : Option (List (String × α)) :=
   r.map fun m => dictSetItem m p v
 
+/-- `getattr(updater, p)`: the class created by `Updater.__init__` (`self.__class__ = type(…)`) has one
+property per key of `updates_`, whose getter `_getacc_` returns `self.updates_[attr]`; any other name is an
+`AttributeError`.  (This dynamic-class machinery is modelled here, not regenerated.) -/
+def dynGetattr (d : List (String × υ)) (p : String) : Except Err υ :=
+  match alookup d p with
+  | some v => .ok v
+  | none => .error .AttributeError
+
+/-- a method of the module's updater reached through the reference `ref` just read from `self.updater`
+(`none`: `onNone`, i.e. `TypeError` for a call of `None`, `AttributeError` for an attribute of `None`).  The
+updater's weak reference designates this module, so the program `f` runs on the view
+`⟨accumulators, some self.attrs⟩` and both components are written back — also when it raises. -/
+def updaterCall (self : ModS α) (ref : Option (List (String × AccS α))) (onNone : Err)
+    (f : UpdS α → Except (Err × UpdS α) (UpdS α × ρ)) : Except (Err × ModS α) (ModS α × ρ) :=
+  let wb (s : UpdS α) : ModS α :=
+    { attrs := (match s._parent_module with | some a => a | none => self.attrs), updater_ := some s.updates_ }
+  match ref with
+  | none => .error (onNone, self)
+  | some u =>
+    match f ⟨u, some self.attrs⟩ with
+    | .ok (s, v) => .ok (wb s, v)
+    | .error (e, s) => .error (e, wb s)
+
 /-- `argtest.members(name, obj, *attr)`: `RuntimeError` unless `obj` has every attribute -/
 def argtestMembers (obj : List (String × α)) (attr : List String) : Except Err Unit :=
   if attr.all (fun a => (alookup obj a).isSome) then .ok () else .error .RuntimeError
